@@ -1508,3 +1508,12 @@ mod persistence {
         }
     }
 }
+
+/// Verification hook: Kani proof harnesses for this module's private items (text lives outside
+/// this repository, in `$SALSA_VERIF_HARNESS_DIR`).
+#[cfg(kani)]
+#[allow(dead_code, unused_imports)]
+pub(crate) mod verif {
+    use super::*;
+    include!(concat!(env!("SALSA_VERIF_HARNESS_DIR"), "/tracked_struct.rs"));
+}
